@@ -278,15 +278,56 @@ func genHdr(r *rand.Rand, cfg *config.Proxy, mode int, forge int) http.Header {
 		if cfg.TLSHeader != "" {
 			names = append(names, cfg.TLSHeader, strings.ToUpper(cfg.TLSHeader))
 		}
-		var toks []string
-		for i := 1 + r.Intn(3); i > 0; i-- {
-			toks = append(toks, pick(r, names))
+		if r.Intn(2) == 0 {
+			var toks []string
+			for i := 1 + r.Intn(3); i > 0; i-- {
+				toks = append(toks, pick(r, names))
+			}
+			add("Connection", strings.Join(toks, pick(r, []string{",", ", ", " ,"})))
+		} else {
+			// several values, random case and blanks
+			for i := 1 + r.Intn(3); i > 0; i-- {
+				add("Connection", connValue(r, names, 1+r.Intn(4)))
+			}
 		}
-		add("Connection", strings.Join(toks, pick(r, []string{",", ", ", " ,"})))
 	} else if r.Intn(5) == 0 {
 		add("Connection", pick(r, []string{"close", "keep-alive", "Keep-Alive, TE"}))
 	}
 	return h
+}
+
+
+// connValue builds one Connection header value out of n tokens drawn from names, in random
+// case, with random blanks around tokens and separators, now and then an empty token.
+func connValue(r *rand.Rand, names []string, n int) string {
+	var toks []string
+	for i := 0; i < n; i++ {
+		t := randCase(r, pick(r, names))
+		switch r.Intn(6) {
+		case 0:
+			t = " " + t
+		case 1:
+			t = t + " "
+		case 2:
+			t = "\t" + t + "  "
+		}
+		if r.Intn(10) == 0 {
+			toks = append(toks, pick(r, []string{"", " "}))
+		}
+		toks = append(toks, t)
+	}
+	return strings.Join(toks, ",")
+}
+
+func managedNames(cfg *config.Proxy) []string {
+	names := []string{"X-Real-Ip", "X-Forwarded-For", "X-Forwarded-Proto", "X-Forwarded-Port", "X-Forwarded-Host", "X-Forwarded-Prefix", "Forwarded"}
+	if cfg.ClientIPHeader != "" {
+		names = append(names, cfg.ClientIPHeader)
+	}
+	if cfg.TLSHeader != "" {
+		names = append(names, cfg.TLSHeader)
+	}
+	return names
 }
 
 func genReq(r *rand.Rand, cfg *config.Proxy, mode int, forge int) *reqT {
@@ -717,17 +758,67 @@ func main() {
 		}
 		serveCase("serve-host-option", cfg, q, t)
 	}
-	for i := 0; i < run.Scale(40, 300); i++ {
+	// live class: the client names managed headers in Connection (F-C08-4, repaired by 216337c:
+	// addHeaders removes such tokens, so ReverseProxy's hop-by-hop deletion drops nothing fabio set).
+	// Token case / blanks / empty tokens / several values / only-managed values / X-Forwarded-For
+	// tokens (not unlisted unless it is the configured client-IP header; the peer must still be last).
+	for i := 0; i < run.Scale(160, 1500); i++ {
 		cfg := genCfg(r)
-		if cfg.ClientIPHeader == "" {
-			cfg.ClientIPHeader = "X-Client-Ip"
+		if cfg.ClientIPHeader == "" && i%3 != 0 {
+			cfg.ClientIPHeader = pick(r, clientIPHeaders[2:])
 		}
-		mode := i % 2
+		mode := i % 4 // websocket requests too: Connection is rewritten there as well, nothing is dropped
 		q := genReq(r, &cfg, mode, 20)
+		up := q.Hdr.Values("Upgrade")
 		q.Hdr.Del("Connection")
-		q.Hdr.Del("Upgrade")
-		q.Hdr.Add("Connection", pick(r, []string{cfg.ClientIPHeader, "X-Real-Ip", "close, " + strings.ToLower(cfg.ClientIPHeader), "X-Forwarded-For", "Forwarded , X-Forwarded-Proto", "keep-alive"}))
+		managed := managedNames(&cfg)
+		mixed := append(append([]string{}, managed...), "close", "keep-alive", "X-Other", "TE", "Upgrade", "X-Forwarded-For")
+		switch i % 6 {
+		case 0: // one value, only managed tokens: the header disappears
+			q.Hdr.Add("Connection", connValue(r, managed, 1+r.Intn(3)))
+		case 1: // managed and unmanaged tokens in one value
+			q.Hdr.Add("Connection", connValue(r, mixed, 2+r.Intn(4)))
+		case 2: // several values, one of them only managed (dropped), the others kept verbatim
+			q.Hdr.Add("Connection", connValue(r, []string{"close", "keep-alive", "X-Other"}, 1+r.Intn(2)))
+			q.Hdr.Add("Connection", connValue(r, managed, 1+r.Intn(2)))
+			q.Hdr.Add("Connection", connValue(r, mixed, 1+r.Intn(3)))
+		case 3: // nothing managed listed: header must stay untouched (blanks and all)
+			q.Hdr.Add("Connection", connValue(r, []string{"close", "keep-alive", "X-Other", "X-Forwarded-For", "x-forwarded-for"}, 1+r.Intn(3)))
+		case 4: // X-Forwarded-For named together with a forged X-Forwarded-For
+			q.Hdr.Add("Connection", connValue(r, []string{"X-Forwarded-For", "X-Real-Ip", "keep-alive"}, 1+r.Intn(3)))
+			if q.Hdr.Get("X-Forwarded-For") == "" {
+				q.Hdr.Add("X-Forwarded-For", "6.6.6.6")
+			}
+		case 5: // the same name repeated, empty value among the values
+			n := pick(r, managed)
+			q.Hdr.Add("Connection", n+","+strings.ToLower(n)+" , "+strings.ToUpper(n))
+			q.Hdr.Add("Connection", "")
+		}
+		if mode >= modeWS {
+			q.Hdr.Add("Connection", "Upgrade")
+		} else if len(up) > 0 && r.Intn(2) == 0 {
+			q.Hdr.Add("Connection", "upgrade")
+		}
 		serveCase("serve-connection-lists-managed", cfg, q, genTarget(mode))
+		addCase("add-connection-lists-managed", cfg, q, pick(r, []string{"", "/foo"}))
+	}
+	// live class: X-Real-Ip (any spelling) as the configured client-IP header with a forged
+	// X-Real-Ip (F-C08-3, repaired by 35aa11b)
+	for i := 0; i < run.Scale(48, 400); i++ {
+		cfg := genCfg(r)
+		cfg.ClientIPHeader = []string{"X-Real-Ip", "x-real-ip", "X-Real-IP", "X-REAL-IP"}[i%4]
+		mode := (i / 4) % 4
+		q := genReq(r, &cfg, mode, 20)
+		q.Hdr.Del("X-Real-Ip")
+		switch (i / 16) % 3 {
+		case 0:
+			q.Hdr.Add("X-Real-Ip", "6.6.6.6")
+		case 1:
+			q.Hdr.Add("x-real-ip", "6.6.6.6")
+			q.Hdr.Add("X-REAL-IP", "7.7.7.7")
+		}
+		serveCase("serve-clientip-xrealip", cfg, q, genTarget(mode))
+		addCase("add-clientip-xrealip", cfg, q, "")
 	}
 	for i := 0; i < run.Scale(12, 60); i++ {
 		cfg := genCfg(r)
